@@ -1,0 +1,156 @@
+//! Read-only probes for external verification harnesses (feature `verif`, off by default)
+//!
+//! Nothing in here mutates connection state.
+
+use super::{Connection, SpaceId, State, Timer};
+use crate::{Duration, Instant};
+
+/// Snapshot of connection-internal accounting
+#[derive(Debug, Clone, PartialEq, Eq)]
+pub struct VerifProbe {
+    /// Name of the connection state
+    pub state: &'static str,
+    /// Bytes considered in flight by congestion control
+    pub in_flight_bytes: u64,
+    /// Ack-eliciting packets in flight
+    pub in_flight_ack_eliciting: u64,
+    /// Number of packets tracked as sent-but-unacked per space
+    pub sent_packets: [usize; 3],
+    /// Consecutive PTO count
+    pub pto_count: u32,
+    /// Pending loss probes per space
+    pub loss_probes: [u32; 3],
+    /// PTO duration for the data space
+    pub pto_data: Duration,
+    /// Current congestion window
+    pub window: u64,
+    /// Whether the current path is validated
+    pub path_validated: bool,
+    /// Bytes sent on the current path
+    pub path_total_sent: u64,
+    /// Bytes received on the current path
+    pub path_total_recvd: u64,
+    /// Whether a previous path is remembered
+    pub has_prev_path: bool,
+    /// Whether a path challenge is outstanding on the current path
+    pub path_challenge_outstanding: bool,
+    /// Armed timers as (name, deadline)
+    pub timers: Vec<(&'static str, Instant)>,
+    /// Stream-level accounting
+    pub streams: VerifStreams,
+    /// Incoming datagram queue: (count, bytes accounted)
+    pub dgram_incoming: (usize, usize),
+    /// Outgoing datagram queue: (count, bytes accounted)
+    pub dgram_outgoing: (usize, usize),
+    /// Highest usable packet space (0..=2)
+    pub highest_space: usize,
+    /// Whether keys exist per space
+    pub has_keys: [bool; 3],
+    /// Current key phase
+    pub key_phase: bool,
+}
+
+/// Stream accounting snapshot
+#[derive(Debug, Clone, Default, PartialEq, Eq)]
+pub struct VerifStreams {
+    /// Total unacknowledged outgoing stream data
+    pub unacked_data: u64,
+    /// Configured bound on `unacked_data`
+    pub send_window: u64,
+    /// Sum of send offsets
+    pub data_sent: u64,
+    /// Peer's connection-level limit
+    pub max_data: u64,
+    /// Our connection-level limit as last computed
+    pub local_max_data: u64,
+    /// Sum of end offsets of receive streams
+    pub data_recvd: u64,
+    /// Configured receive window
+    pub receive_window: u64,
+    /// Configured per-stream receive window
+    pub stream_receive_window: u64,
+    /// Outstanding receive-window shrink debt
+    pub receive_window_shrink_debt: u64,
+    /// Next locally-initiated index per dir
+    pub next: [u64; 2],
+    /// Locally-initiated stream limit per dir
+    pub max: [u64; 2],
+    /// Remotely-initiated stream limit per dir
+    pub max_remote: [u64; 2],
+    /// Streams the peer may open that are not fully closed, per dir
+    pub allocated_remote_count: [u64; 2],
+    /// Lowest unopened remote index per dir
+    pub next_remote: [u64; 2],
+    /// Number of outbound streams
+    pub send_streams: usize,
+    /// Sum of bytes buffered in receive-stream assemblers
+    pub recv_buffered: usize,
+    /// Sum of bytes allocated by receive-stream assemblers
+    pub recv_allocated: usize,
+    /// Entries in the send map / recv map
+    pub map_sizes: (usize, usize),
+}
+
+impl Connection {
+    /// Read-only snapshot of internal accounting
+    pub fn verif_probe(&self) -> VerifProbe {
+        let mut timers = Vec::new();
+        for t in Timer::VALUES {
+            if let Some(at) = self.timers.get(t) {
+                let name = match t {
+                    Timer::LossDetection => "LossDetection",
+                    Timer::Idle => "Idle",
+                    Timer::Close => "Close",
+                    Timer::KeyDiscard => "KeyDiscard",
+                    Timer::PathValidation => "PathValidation",
+                    Timer::KeepAlive => "KeepAlive",
+                    Timer::Pacing => "Pacing",
+                    Timer::PushNewCid => "PushNewCid",
+                    Timer::MaxAckDelay => "MaxAckDelay",
+                };
+                timers.push((name, at));
+            }
+        }
+        let sp = |s: SpaceId| &self.spaces[s];
+        VerifProbe {
+            state: match self.state {
+                State::Handshake(_) => "Handshake",
+                State::Established => "Established",
+                State::Closed(_) => "Closed",
+                State::Draining => "Draining",
+                State::Drained => "Drained",
+            },
+            in_flight_bytes: self.path.in_flight.bytes,
+            in_flight_ack_eliciting: self.path.in_flight.ack_eliciting,
+            sent_packets: [
+                sp(SpaceId::Initial).sent_packets.range(..).count(),
+                sp(SpaceId::Handshake).sent_packets.range(..).count(),
+                sp(SpaceId::Data).sent_packets.range(..).count(),
+            ],
+            pto_count: self.pto_count,
+            loss_probes: [
+                sp(SpaceId::Initial).loss_probes,
+                sp(SpaceId::Handshake).loss_probes,
+                sp(SpaceId::Data).loss_probes,
+            ],
+            pto_data: self.pto(SpaceId::Data),
+            window: self.path.congestion.window(),
+            path_validated: self.path.validated,
+            path_total_sent: self.path.total_sent,
+            path_total_recvd: self.path.total_recvd,
+            has_prev_path: self.prev_path.is_some(),
+            path_challenge_outstanding: self.path.challenge.is_some(),
+            timers,
+            streams: self.streams.verif_probe(),
+            dgram_incoming: (self.datagrams.incoming.len(), self.datagrams.recv_buffered),
+            dgram_outgoing: (self.datagrams.outgoing.len(), self.datagrams.outgoing_total),
+            highest_space: self.highest_space as usize,
+            has_keys: [
+                sp(SpaceId::Initial).crypto.is_some(),
+                sp(SpaceId::Handshake).crypto.is_some(),
+                sp(SpaceId::Data).crypto.is_some(),
+            ],
+            key_phase: self.key_phase,
+        }
+    }
+}
